@@ -566,3 +566,53 @@ specialise(
     bounds="one group / repeat (fixed per instance) around one question",
     weight=60,
 )
+
+
+# ---- e: OSM tag labels ------------------------------------------------------------------------------------
+def c07_osm_tags(trans: bool, q_trans: bool, c0: int) -> bool:
+    """
+    vpre: 97 <= c0 <= 122
+    vpost: _ == True
+    """
+    t = S(c0, 49)
+    if trans:
+        osm = [{"list_name": "tags", "name": "building", "label::L1": t, "label::L2": "B2"}, {"list_name": "tags", "name": "amenity", "label::L1": "A1", "label::L2": "A2"}]
+    else:
+        osm = [{"list_name": "tags", "name": "building", "label": t}, {"list_name": "tags", "name": "amenity", "label": "A"}]
+    q = {"type": "osm tags", "name": "o"}
+    if q_trans:
+        q["label::L1"] = "O1"
+        q["label::L2"] = "O2"
+    else:
+        q["label"] = "O"
+    survey, _w, _js = build_survey({"survey": [q], "osm": osm})
+    return closure_ok(survey.xml(), "default")
+
+
+specialise(
+    "C07",
+    "e.osm-tags",
+    c07_osm_tags,
+    {"trans": [False]},
+    timeout=300,
+    kernel=K + ("pyxform.question:OsmUploadQuestion.build_xml", "pyxform.question:Tag.xml"),
+    shims=("S1", "S2", "S3", "S4"),
+    symbolic="translated or plain label on the osm question (boolean), tag label tracer character",
+    bounds="one osm question with two tags whose labels are plain text",
+    weight=30,
+)
+specialise(
+    "C07",
+    "e.osm-tags-translated",
+    c07_osm_tags,
+    {"trans": [True]},
+    timeout=300,
+    kernel=K + ("pyxform.question:OsmUploadQuestion.build_xml", "pyxform.question:Tag.xml"),
+    shims=("S1", "S2", "S3", "S4"),
+    symbolic="translated or plain label on the osm question (boolean), tag label tracer character",
+    bounds="one osm question with two tags whose labels are translated (label::L1, label::L2); expected to reproduce known finding F23",
+    weight=30,
+    expect="known",
+    reach=False,
+    classifier=lambda call, replay: "F23",
+)
